@@ -327,3 +327,98 @@ Example pause_in_data_ends_session :
   map (fun e => snd (fst e)) (snd (fst (run_net c o [[78;79;79;80;13;10]; [78;79;79;80;13;10]] FEof)))
   = [[(250%Z, false)]; [(221%Z, false)]].
 Proof. vm_compute. reflexivity. Qed.
+
+(** ** Writes that fail: the session stops after the iteration in which a reply could not be
+    written; what it did until then is a session on a prefix of the items. *)
+Lemma run_firstn c : forall items s n,
+  fst (run c s (firstn n items)) = firstn n (fst (run c s items)).
+Proof.
+  induction items as [|it items IH]; intros s n; [destruct n; reflexivity|].
+  destruct n as [|n]; [reflexivity|]. cbn [firstn run].
+  destruct (step c s it) as [s' r d| |]; try reflexivity.
+  specialize (IH s' n).
+  destruct (run c s' (firstn n items)) as [tr1 e1]. destruct (run c s' items) as [tr2 e2].
+  cbn [fst firstn] in *. rewrite IH. reflexivity.
+Qed.
+
+Lemma forallb_firstn {A} (p : A -> bool) n l : forallb p l = true -> forallb p (firstn n l) = true.
+Proof.
+  revert l; induction n as [|n IH]; intros [|x l] H; cbn in *; try reflexivity.
+  apply andb_true_iff in H as [H1 H2]. rewrite H1, (IH _ H2). reflexivity.
+Qed.
+
+(** The transcript of the iterations that ran is the item-level run on the items they consumed. *)
+Lemma run_net_w_run c o chunks f wl :
+  let '(its, tr, _) := run_net_w c o chunks f wl in fst (run c init its) = tr.
+Proof.
+  unfold run_net_w.
+  assert (H : let '(its, tr, _) := run_net c o chunks f in fst (run c init its) = tr).
+  { unfold run_net. destruct chunks as [|w ws]; apply run_reader_run. }
+  destruct (run_net c o chunks f) as [[its tr] sf].
+  destruct wl as [[|b]|]; cbn; [reflexivity| |exact H].
+  rewrite run_firstn, H. reflexivity.
+Qed.
+
+Lemma run_net_quiet c o chunks f : no_extension o ->
+  forallb quiet_item (fst (fst (run_net c o chunks f))) = true.
+Proof. intros H. unfold run_net. destruct chunks as [|w ws]; apply run_reader_quiet; exact H. Qed.
+
+(** C01/C03 when writes fail: the store still holds exactly what the dialogue - as far as the
+    session got - entitles it to. *)
+Theorem write_failure_store_is_entitled : forall c o chunks f wl, no_extension o ->
+  let tr := snd (fst (run_net_w c o chunks f wl)) in
+  deliveries_of tr = entitled c None [] [] (dialogue tr).
+Proof.
+  intros c o chunks f wl H.
+  pose proof (run_net_w_run c o chunks f wl) as Hr.
+  pose proof (run_net_quiet c o chunks f H) as Hq.
+  unfold run_net_w in *.
+  destruct (run_net c o chunks f) as [[its tr] sf]. cbn [fst] in Hq.
+  destruct wl as [[|b]|]; cbn [fst snd] in *.
+  - reflexivity.
+  - rewrite <- Hr. apply delivery_exact, quiet_all_sane, forallb_firstn, Hq.
+  - rewrite <- Hr. apply delivery_exact, quiet_all_sane, Hq.
+Qed.
+
+Lemma deliveries_of_app (a b : list entry) : deliveries_of (a ++ b) = deliveries_of a ++ deliveries_of b.
+Proof. unfold deliveries_of. rewrite map_app, concat_app. reflexivity. Qed.
+Lemma replies_of_app (a b : list entry) : replies_of (a ++ b) = replies_of a ++ replies_of b.
+Proof. unfold replies_of. rewrite map_app, concat_app. reflexivity. Qed.
+
+(** Failing writes only cut the session short: deliveries and the replies the client receives
+    are prefixes of those of the same connection with working writes. *)
+Theorem write_failure_is_cut : forall c o chunks f wl,
+  exists rest,
+    deliveries_of (snd (fst (run_net c o chunks f))) =
+    deliveries_of (snd (fst (run_net_w c o chunks f wl))) ++ rest.
+Proof.
+  intros c o chunks f wl. unfold run_net_w.
+  destruct (run_net c o chunks f) as [[its tr] sf]. cbn [fst snd].
+  destruct wl as [[|b]|]; cbn [fst snd].
+  - exists (deliveries_of tr). reflexivity.
+  - exists (deliveries_of (skipn (iterations_run b tr) tr)).
+    rewrite <- deliveries_of_app, firstn_skipn. reflexivity.
+  - exists []. rewrite app_nil_r. reflexivity.
+Qed.
+
+Theorem write_failure_replies_prefix : forall c o chunks f wl,
+  exists rest,
+    replies_of (snd (fst (run_net c o chunks f))) = snd (run_net_w c o chunks f wl) ++ rest.
+Proof.
+  intros c o chunks f wl. unfold run_net_w.
+  destruct (run_net c o chunks f) as [[its tr] sf]. cbn [fst snd].
+  destruct wl as [[|b]|]; cbn [fst snd].
+  - exists (replies_of tr). reflexivity.
+  - set (n := iterations_run b tr).
+    exists (skipn b (replies_of (firstn n tr)) ++ replies_of (skipn n tr)).
+    rewrite app_assoc, firstn_skipn, <- replies_of_app, firstn_skipn. reflexivity.
+  - exists []. rewrite app_nil_r. reflexivity.
+Qed.
+
+(** A 354 that cannot be written does not keep the block from being read and delivered. *)
+Example failing_354_still_delivers :
+  iterations_run 3
+    [(L (Helo [104]), [(250%Z, false)], []); (L (Mail MBadSyntax NoAns), [(250%Z, false)], []);
+     (L (Rcpt RBadSyntax NoAns), [(250%Z, false)], []); (L (DataC true), [(354%Z, false)], []);
+     (B (PBlock [] None None), [(250%Z, false)], []); (L Quit, [(221%Z, false)], [])] = 5%nat.
+Proof. reflexivity. Qed.
